@@ -26,9 +26,9 @@ type multiModel struct {
 	pumps      []*ssa.Function
 	release    []*ssa.Function // closures created in Acquire that decrement the count
 	lockClass  string
-	handleT    string  // type of the handle allocated in Acquire
-	R          *Region // Acquire and its helpers
-	gCreate    *Guard  // socket == nil edge of Acquire
+	handleT    string          // type of the handle allocated in Acquire
+	R          *Region         // Acquire and its helpers
+	gCreate    *Guard          // socket == nil edge of Acquire
 	createFn   *ssa.Function   // function holding the socket == nil test (Acquire or a helper)
 	holders    map[string]bool // T and the struct types T's socket field points to (a "socket with its channels" bundle)
 }
